@@ -1128,7 +1128,21 @@ func passThroughValidatedAt(c *Ctx, p *packages.Package, fd *ast.FuncDecl, regex
 			}
 			ob := info.ObjectOf(id)
 			if ob == param {
-				return true
+				// (the parameter itself may have been given a new value on this path: property, _ = helper(property))
+				b, bound := env[ob]
+				if !bound || b == nil {
+					return true
+				}
+				bx := ast.Unparen(b)
+				if ix, isIx := bx.(*ast.IndexExpr); isIx && ix.Lbrack == token.NoPos {
+					bx = ast.Unparen(ix.X)
+				}
+				if hc, isCall := bx.(*ast.CallExpr); isCall && decls[calleeOf(info, hc)] != nil {
+					return false // result of a package-local helper given the input: the helper is judged in its place
+				}
+				if refersTo(info, b, ob) {
+					return true
+				}
 			}
 			b, ok := env[ob]
 			if !ok || refersTo(info, b, ob) {
